@@ -399,6 +399,12 @@ func TestC12Stateful(t *testing.T) {
 		}
 		registrable := []string{"a.com", "b.com", "c.com", "s.a.com", "x.a.com", "p.com", "k.p.com"}
 		recNames := []string{"a.com", "b.com", "c.com", "s.a.com", "x.a.com", "y.x.a.com", "xs.a.com", "z.s.a.com", "p.com", "k.p.com", "q.k.p.com"}
+		// a sub-name of exactly 255 bytes (the longest name there is): with the trailing root dot its spelling has 256
+		longest := strings.Repeat("l", 63) + "." + strings.Repeat("m", 63) + "." + strings.Repeat("n", 63) + "." + strings.Repeat("o", 57) + ".a.com"
+		if len(longest) != 255 {
+			panic(chainkit.HarnessError{Msg: "c12: the longest name is not 255 bytes long"})
+		}
+		recNames = append(recNames, longest)
 		data := map[int64][]string{
 			recA:     {"1.2.3.4", "8.8.8.8", "9.9.9.9"},
 			recAAAA:  {"2a00::1", "2a00::2"},
